@@ -185,6 +185,43 @@ def payload(scn, X, y, w, **extra):
 
 
 # ----------------------------------------------------------------------------- the four metamorphic relations
+def masked_rows(gam, X, y, w):
+    """number of observations that GAM._mask drops from the PIRLS step at the FINAL coefficients (|W| < sqrt(eps): saturated means).  Such a
+    fit is a fixed point of the step over the remaining rows only: the dropped rows, however badly fitted, no longer influence it."""
+    B = gam._modelmat(X).toarray()
+    wts = np.ones(len(y)) if w is None else gen_models.f32(w)
+    with warnings.catch_warnings(), np.errstate(all='ignore'):
+        warnings.simplefilter('ignore')
+        mu = gam.link.mu(B @ np.asarray(gam.coef_, dtype=float), gam.distribution)
+        W = np.asarray(gam._W(mu, wts, y).diagonal(), dtype=float)
+        return int(len(y) - np.sum(np.asarray(gam._mask(W), dtype=bool)))
+
+
+def mask_witness():
+    """finding C12-masked-saturated-rows-frozen-fit: LogisticGAM, one unpenalised spline, 24 rows with integer-valued weights w*k versus rows
+    replicated k times with weights w (exact data in c12_mask_witness.json).  Both fits stop with diff < 1e-10; the replicated one has 23 rows
+    masked out of its last step, among them y = 1 rows predicted 1e-23: log-likelihood -907.5 against -58.7 on the same data.
+    returns (max |mu - mu'|, loglik weighted, loglik replicated, masked rows weighted, masked rows replicated)"""
+    import json
+    import os
+    from pygam import LogisticGAM, s
+    d = json.load(open(os.path.join(os.path.dirname(os.path.abspath(__file__)), 'c12_mask_witness.json')))
+    X, y, w, k = np.array(d['x'])[:, None], np.array(d['y']), np.array(d['w']), np.array(d['k'])
+    idx = np.repeat(np.arange(len(y)), k)
+
+    def mk():
+        return LogisticGAM(s(0, n_splines=9, spline_order=2, lam=0.07484608123890127, penalties='none'), fit_intercept=False, tol=1e-10, max_iter=400)
+    out = io.StringIO()
+    with warnings.catch_warnings(), contextlib.redirect_stdout(out), np.errstate(all='ignore'):
+        warnings.simplefilter('ignore')
+        g0, g1 = mk().fit(X, y, weights=w * k), mk().fit(X[idx], y[idx], weights=w[idx])
+        m0, m1 = g0.predict_mu(X), g1.predict_mu(X)
+
+        def ll(m):
+            return float(np.sum(w * k * (y * np.log(np.maximum(m, 1e-300)) + (1 - y) * np.log(np.maximum(1 - m, 1e-300)))))
+        return float(np.max(np.abs(m0 - m1))), ll(m0), ll(m1), masked_rows(g0, X, y, w * k), masked_rows(g1, X[idx], y[idx], w[idx])
+
+
 def transform_perm(rng, scn):
     n = scn['n']
     perm = list(range(n))
@@ -283,12 +320,21 @@ def run_relation(res, rng, scn, tr, base=None, capture=False):
     res.count('conditioning bound on the linear predictor of the query rows, relative: %s' % (
         '<=1e-9' if np.max(slack) <= 1e-9 * lpmax else ('<=1e-6' if np.max(slack) <= 1e-6 * lpmax else '>1e-6 (dominates the tolerance)')))
     inp = payload(scn, X, y, w, transform=tr, query=Xq.tolist())
-    ok = compare(res, '%s changes the fit' % kind, inp, checks)
+    # a fit that ended with rows masked out of its last step is a fixed point of a DIFFERENT (smaller) problem: listed finding when the two differ
+    nm0, nm1 = masked_rows(gam0, X0, y0, w0_), masked_rows(gam1, X1, y1, w1)
+    frozen = (nm0 > 0 or nm1 > 0)
+    if frozen:
+        res.count('%s: a fit ended with rows masked out of the last PIRLS step (saturated means)' % kind)
+        inp['masked_rows_final_step'] = [nm0, nm1]
+    ok = compare(res, '%s changes the fit' % kind, inp, checks, finding=MASK_FINDING if frozen else None)
+    if not ok and frozen:
+        return 'ok', dict(gam0=gam0, gam1=gam1, it0=None, it1=None, checks=checks)     # reported as the known finding, not as a disagreement
     return ('ok' if ok else 'bad'), dict(gam0=gam0, gam1=gam1, it0=it0, it1=it1, checks=checks)
 
 
 PVAL_FINDING = 'C12-pvalue-pinv-noise'
 CONST_FINDING = 'C12-constant-column-units'
+MASK_FINDING = 'C12-masked-saturated-rows-frozen-fit'
 
 
 def pinv_kept(gam, t):
@@ -580,6 +626,16 @@ def run(res):
                                        observed=dict(p_values=p1.tolist(), p_values_scaled=p3.tolist(), prediction_error=perr), expected='equal within %g' % TOL))
     except ValueError as e:
         res.notes.append('s17 witness raised %s' % type(e).__name__)
+    try:
+        dmu, ll0, ll1, k0, k1 = mask_witness()
+        res.case('mask-witness')
+        if dmu > TOL:
+            res.violations.append(dict(what='replication changes the fit (recorded witness mask_witness)', finding=MASK_FINDING if (k0 > 0 or k1 > 0) else None,
+                                       input=dict(fn='harness/props/c12.py:mask_witness', data='harness/props/c12_mask_witness.json'),
+                                       observed=dict(max_abs_difference_of_predictions=dmu, loglik_weighted=ll0, loglik_replicated=ll1, masked_rows=[k0, k1]),
+                                       expected='equal within %g' % TOL))
+    except ValueError as e:
+        res.notes.append('mask witness raised %s' % type(e).__name__)
     try:
         m1, m2, e1, e2, winp = const_column_witness()
         res.case('constant-column-witness')
